@@ -142,7 +142,13 @@ pub fn exec(a: &[&str]) -> String {
 
 /// random k-mer (as bases), biased towards extreme lanes
 pub fn random_kmer_bases(rng: &mut Rng, k: usize) -> Vec<u8> {
-    match rng.below(8) {
+    match rng.below(9) {
+        8 => {
+            // one base followed by A's (the value 4^(K-1) * x: the lane next to the unused ones), or A's followed by one base
+            let mut v = vec![0u8; k];
+            if rng.chance(2, 3) { v[0] = rng.range(1, 3) as u8; } else { v[k - 1] = rng.range(1, 3) as u8; }
+            v
+        }
         0 => vec![0; k],
         1 => vec![3; k],
         2 => (0..k).map(|i| if i % 2 == 0 { 0 } else { 3 }).collect(),
